@@ -97,20 +97,22 @@ const infCap = math.MaxInt32
 // Policy fixes the choices the language leaves open, so that programs whose
 // result depends on them can be detected by running under several policies.
 type Policy struct {
-	Cap     string // "exact": capacity always equals length (append never aliases); "spare": creation cap n+2, growth 2n+2; "inf": unlimited capacity (append always in place)
-	MapDesc bool   // iterate / render maps in descending key order instead of ascending
+	Cap      string // "exact": capacity always equals length (append never aliases); "spare": creation cap n+2, growth 2n+2; "inf": unlimited capacity (append always in place)
+	MapOrder string // order in which maps are iterated / rendered: "" or "asc", "desc", "hash" (by a hash of the key), "rot" (ascending, rotated by half)
 }
 
 func (p Policy) String() string {
-	o := "asc"
-	if p.MapDesc {
-		o = "desc"
+	o := p.MapOrder
+	if o == "" {
+		o = "asc"
 	}
 	return p.Cap + "/" + o
 }
 
-// Policies are the configurations a case is evaluated under.
-var Policies = []Policy{{Cap: "exact"}, {Cap: "inf", MapDesc: true}, {Cap: "spare"}}
+// Policies are the configurations a case is evaluated under: three capacity
+// behaviours and four unrelated map orders, so that a result that depends on
+// either differs between at least two of them.
+var Policies = []Policy{{Cap: "exact"}, {Cap: "inf", MapOrder: "desc"}, {Cap: "spare", MapOrder: "hash"}, {Cap: "exact", MapOrder: "rot"}}
 
 func (p Policy) createCap(n int) int {
 	switch p.Cap {
@@ -184,10 +186,16 @@ func (p Policy) SortedKeys(m *MapV) []string {
 		keys = append(keys, k)
 	}
 	sort.Strings(keys)
-	if p.MapDesc {
+	switch p.MapOrder {
+	case "desc":
 		for i, j := 0, len(keys)-1; i < j; i, j = i+1, j-1 {
 			keys[i], keys[j] = keys[j], keys[i]
 		}
+	case "hash":
+		sort.SliceStable(keys, func(i, j int) bool { return keyHash(keys[i]) < keyHash(keys[j]) })
+	case "rot":
+		h := (len(keys) + 1) / 2
+		keys = append(append([]string{}, keys[h:]...), keys[:h]...)
 	}
 	return keys
 }
@@ -406,4 +414,13 @@ func describe(sb *strings.Builder, v Value, d int) {
 	default:
 		fmt.Fprintf(sb, "<%T>", v)
 	}
+}
+
+func keyHash(s string) uint32 {
+	h := uint32(2166136261)
+	for i := 0; i < len(s); i++ {
+		h ^= uint32(s[i])
+		h *= 16777619
+	}
+	return h ^ h>>15
 }
